@@ -342,6 +342,15 @@ impl<'a> Sim<'a> {
                 let mut u = j.get("unsigned").cloned().unwrap_or_else(J::obj);
                 u.set("age", J::Int(self.t.below(100000) as i64));
                 u.set("tampered", gen::gen_json(self.t, 2));
+                if self.t.chance(1, 3) {
+                    // what a relay attaches to redacted copies - here on a copy that is not redacted
+                    let mut rb = J::obj();
+                    rb.set("type", J::s("m.room.redaction"));
+                    rb.set("sender", J::s("@mod:relay.example"));
+                    rb.set("content", J::obj());
+                    u.set("redacted_because", rb);
+                    self.bump("fault.tamper.unsigned.redacted_because-on-unredacted-copy");
+                }
                 j.set("unsigned", u);
                 Ledger::TamperUnsigned
             }
